@@ -198,6 +198,22 @@ def run(ctx):
                         continue
                     k += 1
                     cases.append(dict(section="grid", method=m, dtype=dn, rhs="const" if (t0 + tf) % 2 else "osc", t0=float(t0), tf=float(tf), dt0=dt0, sample=(k % 499 == 0)))
+    # the boundary of 'all dt <= span': dt equal to the span (one full step), dt half of it, and - on the inexact side - one rounding unit below the span
+    for m in lc.FIXED_EXPLICIT + lc.SPLITTING + lc.IMPLICIT_FIXED:
+        for (t0, tf) in spans:
+            L = abs(t0 - tf)
+            if L > 2:
+                continue
+            for dt0 in (float(L), float(L) / 2):
+                for dn in (("float64",) if ctx.quick else lc.DT):
+                    if ctx.quick and m in lc.IMPLICIT_FIXED and (t0 + tf) % 2 == 0:
+                        continue
+                    cases.append(dict(section="grid", method=m, dtype=dn, rhs="const" if (t0 + tf) % 2 else "osc", t0=float(t0), tf=float(tf), dt0=dt0))
+    for m in lc.FIXED_EXPLICIT + lc.SPLITTING:
+        for (t0, tf) in ((0.0, 1.0), (1.0, 0.0), (-1.0, -2.0), (-2.0, -1.0), (3.0, 2.0), (-0.5, 0.5), (0.5, -0.5)):
+            for dn in lc.DT:
+                below = float(np.nextafter(lc.DT[dn](abs(tf - t0)), lc.DT[dn](0)))
+                cases.append(dict(section="inexact", method=m, dtype=dn, rhs="const", t0=t0, tf=tf, dt0=below))
     allm = lc.FIXED_EXPLICIT + lc.SPLITTING + lc.ADAPTIVE_EXPLICIT + lc.IMPLICIT_FIXED + lc.IMPLICIT_ADAPTIVE
     ispans = [(0.0, 2.0), (-2.0, -0.5), (1.0, -1.0), (-3.0, 1.0), (3.0, 0.5)] if ctx.quick else [(float(a), float(b)) for a, b in spans if abs(a - b) <= 2]
     for m in allm:
